@@ -71,6 +71,8 @@ func (w *World) xmlTagOf(pkgShort, typeName, field string) (string, bool) {
 
 func checkC12(cx *Ctx, r *Report) {
 	w, fx := cx.W, cx.Fx
+	// request data must not be shared between requests through recycled buffers (R-POOL, see C15)
+	cx.checkPoolEscape(r)
 	r.Clauses = []string{
 		"guards precede disclosure: user-info lookup, the Success constructor and signing happen only after decode, SP lookup by Issuer, certificate, signature and destination steps; the response is emitted only after the chain",
 		"the Destination is decodable (unqualified attribute like its siblings) and compared with the AttributeService locations of this request's metadata",
@@ -87,6 +89,7 @@ func checkC12(cx *Ctx, r *Report) {
 		return
 	}
 	ch := k.ch
+	cx.checkNoPassWithoutProvider(r, ch, "attr")
 	before := func(name string, a, b *Step) {
 		if a == nil || b == nil {
 			return
@@ -298,8 +301,8 @@ func checkC12(cx *Ctx, r *Report) {
 		r.Check(len(a) == 1 && len(b) == 1 && a[0] == b[0], "R-VFG", "attr:same-attributes-object", w.InstrPos(c4[0]), "the response is built from the object storage filled for the queried subject", "the response is built from a different Attributes object than the one storage filled")
 	}
 	_ = fx
-	r.Min("R-VFG", 12)
-	r.Min("R-ORDER", 10)
+	r.Min("R-VFG", 8)
+	r.Min("R-ORDER", 6)
 }
 
 // checkAttrFilter: in makeAttributeQueryResponse every append to the provided list is under
